@@ -233,6 +233,9 @@ type Ctx struct {
 	Trace    bool
 	Notes    []string
 	curState *State
+	replayPtrs map[uint64]*Object
+	replayFresh map[*Object]bool
+	replayPost bool
 	NoMerge bool
 	Merges int
 	ParamVals []Value
@@ -984,6 +987,9 @@ func (c *Ctx) valueEq(st *State, a, b Value) *Term {
 		y := b.(SliceV)
 		if x.Heap && y.Heap {
 			return And(Eq(x.Ref, y.Ref), Eq(x.Off, y.Off), Eq(x.Len, y.Len), Eq(x.Cap, y.Cap))
+		}
+		if !x.Heap && !y.Heap && x.Obj != nil && y.Obj != nil {
+			return BoolT(x.Obj == y.Obj && x.COff == y.COff && x.CLen == y.CLen)
 		}
 		if !y.Heap && y.Obj == nil {
 			if x.Heap {
